@@ -101,6 +101,13 @@ def run_session(rng, res: Result, idx, real_socket=False):
     srv = ms.Server(rng=random.Random(rng.randrange(1 << 30)), users={b"user": b"pw"},
                     version=version, quota=400,
                     encodings="mixed")
+    srv.active_marker = rng.choice([b"ACTIVE", b"ACTIVE", b"active", b"Active"])
+    # what the server offers for authentication: always something the client implements,
+    # sometimes next to names that merely contain an implemented mechanism's name
+    srv.sasl = rng.choice([["PLAIN"], ["PLAIN"], ["LOGIN"], ["DIGEST-MD5", "PLAIN"],
+                           ["SCRAM-SHA-1", "PLAIN-CLIENTTOKEN", "LOGIN"], ["XLOGIN", "PLAIN"],
+                           ["DIGEST-MD5-SESS", "OAUTHBEARER-X", "LOGIN"],
+                           ["GSSAPI", "X-PLAIN-SUBMIT", "LOGIN2", "PLAIN"]])
     if conv:
         # names quoted, bodies literal; status texts still vary
         orig_how = srv.how
@@ -111,7 +118,7 @@ def run_session(rng, res: Result, idx, real_socket=False):
             for name in srv.scripts:
                 srv.emit(ms.quoted(name))
                 if name == srv.active:
-                    srv.emit(b" ACTIVE")
+                    srv.emit(b" " + srv.active_marker)
                 srv.emit(ms.CRLF)
             srv.final("OK", None, b"Listscripts completed.")
         srv.do_listscripts = do_list
@@ -166,7 +173,7 @@ def _run_steps(rng, res, idx, sess, srv, conv, names, version, segmented, real_s
                     for name in srv.scripts:
                         srv.emit(ms.quoted(name))
                         if name == srv.active:
-                            srv.emit(b" ACTIVE")
+                            srv.emit(b" " + srv.active_marker)
                         srv.emit(ms.CRLF)
                     srv.final("OK", None, b"Listscripts completed.")
                 srv.do_listscripts = do_list
